@@ -7,8 +7,16 @@ import Shm.Base.Hex
 import Shm.Model.Consts
 namespace Shm
 
-/-- value of one template entry: `none` = NULL pointer -/
-abbrev Template := List (Nat × Option Bytes)
+/-- one CK_ATTRIBUTE of a template. `val = none` is a NULL pointer (then `len` is what the caller announced);
+    `nested` is set for array-valued attributes (CKA_WRAP_TEMPLATE / CKA_UNWRAP_TEMPLATE): (type, value, length). -/
+structure TEntry where
+  ty : Nat
+  val : Option Bytes
+  len : Nat
+  nested : Option (List (Nat × Option Bytes × Nat)) := none
+  deriving DecidableEq, Repr, Inhabited
+
+abbrev Template := List TEntry
 
 /-- operation kinds of `Session::operation` -/
 inductive OpKind | none | find | encrypt | decrypt | digest | sign | verify
@@ -47,7 +55,10 @@ abbrev HTable := List (Nat × Ent)
 inductive AVal
   | bool (b : Bool)
   | ulong (n : Nat)
-  | bytes (v : Bytes)
+  | bytes (v : Bytes) (enc : Bool := false)       -- `enc`: stored encrypted under the token key (private objects)
+  | mechs (l : List Nat)                         -- mechanism-type set, ascending
+  | amap (l : List (Nat × Nat × Bytes))          -- attribute map: (type, kind 1 bool / 2 ulong / 3 bytes, raw value), ascending
+  | unk                                          -- a value the model does not compute (learned from the observation)
   deriving DecidableEq, Repr, Inhabited
 
 structure Obj where
